@@ -9,6 +9,8 @@ import (
 
 	"github.com/rs/zerolog/log"
 
+	cppcommon "github.com/microsoft/yardl/tooling/internal/cpp/common"
+	"github.com/microsoft/yardl/tooling/internal/validation"
 	"github.com/microsoft/yardl/tooling/pkg/dsl"
 	"github.com/microsoft/yardl/tooling/pkg/packaging"
 	"github.com/spf13/cobra"
@@ -81,6 +83,11 @@ func validatePackage(packageInfo *packaging.PackageInfo) (*dsl.Environment, []st
 			}
 		}
 		labels = append(labels, version.Label)
+
+		if packageInfo.Cpp != nil && cppcommon.TypeIdentifierName(version.Label) != version.Label {
+			// The labels are the members of the generated `enum class Version`
+			return env, nil, validation.NewValidationError(fmt.Errorf("the version label '%s' is a reserved word in C++", version.Label), packageInfo.FilePath)
+		}
 
 		namespaces, err := parseAndFlattenNamespaces(version.Package)
 		if err != nil {
